@@ -330,7 +330,7 @@ PROPS = {
  },
  "C10": {
   "modules": ["OsmoVerif.Props.C10", "OsmoVerif.Props.C10Geom", "OsmoVerif.Props.TieGenTwap"],
-  "min_theorems": 58,
+  "min_theorems": 60,
   "fingerprints": ["Twap.*"],
   "engines": [{"name": "twap", "kind": "app", "n": {"quick": 5000, "thorough": 40000}, "shards": {"quick": 4, "thorough": 16}, "env": NO_EXPORT_IMPORT}],
   "rule": "two kinds of histories, half of the op budget each.  SINGLE-POOL: a fresh balancer (2 or 3 assets; random / unit / power-of-two / extreme balances and weights) or "
@@ -369,7 +369,9 @@ PROPS = {
                   "directions within 2rho + rho^2 + (1+rho) alpha (T + 1/T) + alpha^2 of 1 (<= 1.1e-7 for 1e-9 <= T <= 1e9; product 0 at MaxSpotPrice: witness); the oracle's tolerance "
                   "(half a unit of the 8th significant figure [of the 8th decimal for values >= 0.1] + 2e-18 + 1e-17 relative) is the same bound with the sharper grid form of SigFigRound; "
                   "excluded cases = finding F14 (accumulator difference 0: all prices one, logarithms that cancel, interval inside one millisecond: answer 0; witness theorems)",
-                  "NOT a theorem: that the geometric query does not panic on the supported price range (Dec range checks of the accumulators, Exp2 domain reached only through them): differential run",
+                  "totality of the geometric strategy is a theorem RELATIVE to the arithmetic one (geom_answered_whenever_arith_answered: same endpoint records; prices in [0, MaxSpotPrice] keep the "
+                  "mean logarithm in [-60, 128], inside Exp2's domain; interval at most 2^63 ms); NOT a theorem: that the endpoint records can be interpolated at all (Dec range checks of the "
+                  "three accumulators over a realistic history) - common to both strategies, differential run",
                   "times are representable by UnixNano and block times never decrease (the second rejection branch of updateRecord, record time after block time, is unreachable "
                   "through blocks; missing most recent records / record count mismatch are unreachable through messages: only the repeated-timestamp rejection is generated)",
                   "pruning is modelled as a completed pass; the engine only compares the historical index with the model between passes"],
